@@ -16,3 +16,4 @@ open Gossamer.C22
 #print axioms C22_safe_nonvacuous
 #print axioms C22_possible_complete
 #print axioms C22_closable_of_computed
+#print axioms C22_lib_rounds_counterexample
